@@ -666,7 +666,6 @@ Proof.
            subst m. assumption.
   - unfold rp_is_in_top_with_nodes, rp_min_score.
     rewrite <- (Permutation_length (rp_sort_sc_perm a)), <- (Permutation_length (rp_sort_sc_perm b)).
-    rewrite <- Hna at 1. rewrite <- Hnb at 2. rewrite !map_length.
     assert (length a = length pool) by (rewrite <- Hna, map_length; reflexivity).
     assert (length b = length pool) by (rewrite <- Hnb, map_length; reflexivity).
     destruct (Z.leb_spec k (Z.of_nat (length a))); [lia|]. destruct (Z.leb_spec k (Z.of_nat (length b))); [lia|].
